@@ -487,6 +487,32 @@ func (g *Gen) byKind(kind string) Op {
 			roles = [][]byte{cand[g.pick("role", len(cand))]}
 		}
 		return callOp(g.sysCall(g.shard(rcv), refBuiltInFunctionSetESDTRole, rcv, append([][]byte{token}, roles...)...))
+	case "setrole-repeat":
+		// NOT what the disciplined system contract sends (N6): a role message that names a role twice and / or a role the
+		// account already holds. Used where a statement quantifies over every call (determinism, C13): the result - the
+		// stored list included - has to be the same every time whatever the library decides to do with the repetition.
+		rcv := g.addr("rr-rcv")
+		token := g.tokenOfKind("rr-token", "SFT", "NFT")
+		acc := m.acc(g.shard(rcv), rcv)
+		_, busy := g.createRoleBusy(token)
+		var roles [][]byte
+		for _, r := range []string{refESDTRoleNFTBurn, refESDTRoleNFTAddQuantity, refESDTRoleNFTAddURI, refESDTRoleNFTUpdateAttributes, refESDTRoleNFTCreate} {
+			if r == refESDTRoleNFTCreate && ((busy && !acc.hasRole(token, r)) || m.Issued[string(token)] > 0) {
+				continue
+			}
+			if g.pick("rr-take", 3) > 0 {
+				roles = append(roles, []byte(r))
+			}
+		}
+		if len(roles) == 0 {
+			roles = append(roles, []byte(refESDTRoleNFTBurn))
+		}
+		roles = append(roles, roles[g.pick("rr-dup", len(roles))])
+		if g.pick("rr-front", 2) == 0 {
+			roles[0], roles[len(roles)-1] = roles[len(roles)-1], roles[0]
+		}
+		g.Shape = append(g.Shape, "setrole-repeated-role")
+		return callOp(g.sysCall(g.shard(rcv), refBuiltInFunctionSetESDTRole, rcv, append([][]byte{token}, roles...)...))
 	case "unsetrole":
 		var cands [][2][]byte
 		for _, a := range g.holders {
